@@ -277,6 +277,10 @@ class RawSet(list):
     """a set-like raw result (frozenset, keys / items view) with its members normalised"""
 
 
+class RawDict(list):
+    """a raw dictionary result as the list of its (key, value) pairs"""
+
+
 class RawIter(list):
     """what came out of a lazy raw result when the host consumed it"""
 
@@ -292,7 +296,7 @@ def norm_raw(r, key=False):
     if isinstance(r, list):
         return [norm_raw(x) for x in r]
     if isinstance(r, abc.Mapping):
-        return (FD if key else dict)((norm_raw(k, True), norm_raw(v, key)) for k, v in r.items())    # (inside a key: hashable all the way down)
+        return RawDict((norm_raw(k), norm_raw(v)) for k, v in r.items())         # (pairs: the harness hashes nothing)
     if isinstance(r, abc.Set):
         return RawSet(norm_raw(x) for x in r)
     if isinstance(r, abc.Iterable):
@@ -433,6 +437,18 @@ def match_fin(f, r, opts=None):
     set of the reference stands for a list (C14)."""
     strict = opts is not None
     raw = strict and not opts.co
+    if isinstance(f, seqref.FDict):
+        if type(r) is not RawDict or len(f) != len(r):
+            return False
+        left = list(r)
+        for k, v in f:
+            for i, (rk, rv) in enumerate(left):
+                if match_fin(k, rk, opts) and match_fin(v, rv, opts):
+                    del left[i]
+                    break
+            else:
+                return False
+        return True
     if isinstance(f, seqref.FIter):
         if raw:
             return type(r) is RawIter and len(f) == len(r) and all(match_fin(x, y, opts) for x, y in zip(f, r))
@@ -470,7 +486,7 @@ def match_fin(f, r, opts=None):
     return same_scalar(f, r)
 
 
-def dec_model(j, strict=False, as_key=False):
+def dec_model(j, strict=False, as_key=False, raw=False):
     """model value -> finalised python shape with sets marked (to match against the real result); strict: tuples stay
     tuples"""
     if j is None or isinstance(j, bool):
@@ -483,14 +499,16 @@ def dec_model(j, strict=False, as_key=False):
     if k == 's':
         return ''.join(chr(c) for c in x)
     if k == 'tu' and strict:
-        return tuple(dec_model(t, strict, as_key) for t in x)
+        return tuple(dec_model(t, strict, as_key, raw) for t in x)
     if k == 'it' and strict:
-        return seqref.FIter(dec_model(t, strict) for t in x)
+        return seqref.FIter(dec_model(t, strict, False, raw) for t in x)
     if k in ('tu', 'li', 'it'):
-        return [dec_model(t, strict) for t in x]
+        return [dec_model(t, strict, False, raw) for t in x]
     if k == 'se':
-        return seqref.FSet(dec_model(t, strict) for t in x)
+        return seqref.FSet(dec_model(t, strict, False, raw) for t in x)
     if k == 'd':
+        if raw:
+            return seqref.FDict((dec_model(a, strict, False, True), dec_model(b, strict, False, True)) for a, b in x)
         return (FD if as_key else dict)((dec_model(a, strict, True), dec_model(b, strict, as_key)) for a, b in x)
     raise ValueError(j)
 
@@ -513,7 +531,7 @@ def agree_real_model(real, mod, opts=None):
     if real[0] != 'ok':
         return False
     try:
-        return match_fin(dec_model(mod['ok'], opts is not None), real[1], opts)
+        return match_fin(dec_model(mod['ok'], opts is not None, False, opts is not None and not opts.co), real[1], opts)
     except TypeError:
         return False
 
